@@ -175,6 +175,67 @@ fn main() {
             }
             pf.flush().unwrap();
         }
+        "mbtlt" => {
+            // spec -> code for the long-term mechanism: behaviours of CredLT.tla
+            use rustun_verif_harness::clientdrv::{MsgSpec, Target, TimeSpec};
+            use stun_agent::verif::VerifMechanism;
+            let file = arg(&args, "--sched", "sched.ndjson");
+            let cfgv: Value = serde_json::from_str(&arg(&args, "--cfg", "{}")).expect("cfg json");
+            let cfg = Cfg::from_json(&cfgv);
+            let mut pf = BufWriter::new(File::create(format!("{}/pred.ndjson", out)).unwrap());
+            let f = BufReader::new(File::open(&file).expect("sched file"));
+            for (i, line) in f.lines().enumerate() {
+                let line = line.unwrap();
+                if line.trim().is_empty() { continue; }
+                let sched: Value = serde_json::from_str(&line).expect("json");
+                let Ok(mut d) = Driver::new(cfg.clone(), i as u64) else { continue };
+                let (mut done, mut preds) = (Vec::new(), Vec::new());
+                for h in sched.as_array().cloned().unwrap_or_default() {
+                    let st = &h["st"];
+                    let step = if st["a"] == "send" {
+                        Step::Send { at: TimeSpec::Dt(1000), method: 1, app: vec![], buf: 2048 }
+                    } else {
+                        let m = &st["msg"];
+                        let cls = steps::class_from(m["cls"].as_str().unwrap_or("success"));
+                        let code = m["code"].as_u64().unwrap_or(0) as u16;
+                        let algs: Vec<u64> = m["algs"].as_array().map(|a| a.iter().map(|x| x.as_u64().unwrap_or(0)).collect()).unwrap_or_default();
+                        let algname = match algs.as_slice() { [1] => "md5", [2] => "sha", [1, 2] => "md5_sha", [7] => "unsup", [9, 1] => "unsup_md5", _ => "none" };
+                        let (pa, ua) = (m["pa"].as_bool().unwrap_or(false), m["ua"].as_bool().unwrap_or(false));
+                        let lt = json!({
+                            "realm": if !m["realmPresent"].as_bool().unwrap_or(false) { "absent" } else if m["realm"] == "r2" { "other" } else { "ok" },
+                            "nonce": if !m["noncePresent"].as_bool().unwrap_or(false) { "absent" } else if pa || ua { "fresh_cookie" } else { "fresh" },
+                            "pa": pa, "ua": ua, "algs": algname, "dup": false, "key": "client"});
+                        // the integrity kind an RFC server would use for this reply
+                        let client_kind = match &d.snapshot().mechanism {
+                            VerifMechanism::LongTerm(l) => match l.params.as_ref().map(|p| p.integrity) {
+                                Some(stun_agent::Integrity::MessageIntegritySha256) => "sha",
+                                _ => "mi",
+                            },
+                            _ => "mi",
+                        };
+                        let kind = if cls == 3 && code == 401 { if algname != "none" { "sha" } else { "mi" } } else { client_kind };
+                        let other = if kind == "sha" { "mi" } else { "sha" };
+                        let auth = match m["int"].as_str().unwrap_or("none") {
+                            "good" => kind.to_string(),
+                            "bad" => format!("{}_bad", kind),
+                            "otherkind" => other.to_string(),
+                            "otherpw" => format!("{}_otherpw", kind),
+                            _ => "none".to_string(),
+                        };
+                        Step::Recv { at: TimeSpec::Dt(1000), msg: MsgSpec {
+                            target: if st["tp"].as_bool().unwrap_or(false) { Target::Tx(0) } else { Target::Unknown },
+                            class: cls, method: None, code, auth, fp: "auto".to_string(), lt, raw: None, hostile: Value::Null } }
+                    };
+                    d.step(&step);
+                    done.push(steps::step_to_json(&step));
+                    preds.push(json!({"res":h["res"],"evk":h["evk"],"types":h["types"]}));
+                }
+                writeln!(pf, "{}", json!({"tr":i,"pred":preds})).unwrap();
+                write_trace(&mut tf, &mut sf, i as u64, &cfg, i as u64, &done, &d, &mut nlines);
+                ntr += 1;
+            }
+            pf.flush().unwrap();
+        }
         "replay" => {
             let file = arg(&args, "--steps", "steps.ndjson");
             let f = BufReader::new(File::open(&file).expect("steps file"));
